@@ -32,7 +32,16 @@ def _plain_cases(ref):
     def gen():
         def build(f):
             return dict(self=f.obj(ref), k=f.array('k', (f.int('n', lo=0),)))
-        yield 'any k grid', build
+        yield 'any k grid', build, {'history': {'method': 'calculate', 'other': True}}
+
+        def build_h(f):
+            # an earlier result (of this or of another instance, on a grid of any length) was scaled in place by its
+            # caller, e.g. rho*omega: the next evaluation still returns the model's constant in fresh storage
+            first = f.obj(ref)
+            r = f.call(first, 'calculate', f.array('h_k', (f.int('h_n', lo=0),)))
+            f.scale_inplace(r, f.real('h_c'))
+            return dict(self=f.obj(ref), k=f.array('k', (f.int('n', lo=0),)), _earlier=r)
+        yield 'any k grid, after the result of an earlier evaluation was scaled in place', build_h
     return gen
 
 
@@ -188,6 +197,31 @@ def _dk_cases():
         yield 'N=%d (loops unrolled)' % N, build, ({'history': {'method': 'calculate', 'other': True}} if N == 3 else {})
 
 
+from scipy.optimize import root      # native meaning for the replay; symbolically the assumed contract in pyvc/models.py
+
+
+@contract('pyPRISM/omega/DiscreteKoyama.py::DiscreteKoyama.cos_avg', props=['C11'])
+def DiscreteKoyama_cos_avg(self, epsilon):
+    # first moment of the bond-angle distribution exp(e cos(theta)) restricted to cos(theta) in [-1, -cos0]
+    return 1 / epsilon - (exp(epsilon) + self.cos0 * exp(-epsilon * self.cos0)) / (exp(epsilon) - exp(-epsilon * self.cos0))
+
+
+@contract('pyPRISM/omega/DiscreteKoyama.py::DiscreteKoyama.cos_sq_avg', props=['C11'])
+def DiscreteKoyama_cos_sq_avg(self, epsilon):
+    avg = 1 / epsilon - (exp(epsilon) + self.cos0 * exp(-epsilon * self.cos0)) / (exp(epsilon) - exp(-epsilon * self.cos0))
+    return (2 / epsilon) * avg + (exp(epsilon) - self.cos0 * self.cos0 * exp(-epsilon * self.cos0)) / (exp(epsilon) - exp(-epsilon * self.cos0))
+
+
+def _moment_cases():
+    def build(f):
+        return dict(self=_mk_koyama(f, 4), epsilon=f.real('e'))
+    yield 'any epsilon and stored cos0', build
+
+
+cases(DiscreteKoyama_cos_avg)(_moment_cases)
+cases(DiscreteKoyama_cos_sq_avg)(_moment_cases)
+
+
 @contract('pyPRISM/omega/DiscreteKoyama.py::DiscreteKoyama.__init__', props=['C11'])
 def DiscreteKoyama_init(self, sigma, l, length, lp):
     self.sigma = sigma
@@ -201,15 +235,28 @@ def DiscreteKoyama_init(self, sigma, l, length, lp):
     self.lp_min = 4.0 * l * l * l / (4.0 * l * l - sigma * sigma)
     if lp < self.lp_min:
         raise ValueError
-    require((lp - self.lp_min) / self.lp_min < 0.001)     # root-solve branch: out of reach, bounded stand-in only
     self.cos1 = l / lp - 1.0
-    self.epsilon = 6.0 * (self.cos0 - 1.0 - 2.0 * self.cos1) / ((1.0 + self.cos0) * (1.0 + self.cos0))
-    self.cos2 = (1.0 / 3.0) * (1.0 + (self.cos0 - 1.0) * self.cos0) - (1.0 / 12.0) * ((self.cos0 - 1.0) * (1.0 + self.cos0) * (1.0 + self.cos0)) * self.epsilon
+    if (lp - self.lp_min) / self.lp_min < 0.001:
+        # linearisation next to the freely jointed limit
+        self.epsilon = 6.0 * (self.cos0 - 1.0 - 2.0 * self.cos1) / ((1.0 + self.cos0) * (1.0 + self.cos0))
+        self.cos2 = (1.0 / 3.0) * (1.0 + (self.cos0 - 1.0) * self.cos0) - (1.0 / 12.0) * ((self.cos0 - 1.0) * (1.0 + self.cos0) * (1.0 + self.cos0)) * self.epsilon
+    else:
+        # bending energy: the root of <cos>(e) = cos1 that scipy's root returns from the start value 0.5 (assumed
+        # contract R1/R2 of root: it reports the point of its last evaluation and a success flag); no root -> rejected
+        c0 = self.cos0
+        c1 = self.cos1
+        result = root(lambda e: (1 / e[0] - (exp(e[0]) + c0 * exp(-e[0] * c0)) / (exp(e[0]) - exp(-e[0] * c0))) - c1, 0.5)
+        if result.success != True:
+            raise ValueError
+        eps = result.x[0]
+        self.epsilon = eps
+        avg = 1 / eps - (exp(eps) + c0 * exp(-eps * c0)) / (exp(eps) - exp(-eps * c0))
+        self.cos2 = (2 / eps) * avg + (exp(eps) - c0 * c0 * exp(-eps * c0)) / (exp(eps) - exp(-eps * c0))
 
 
 @cases(DiscreteKoyama_init)
 def _dk_init_cases():
-    for region in ('l<=sigma/2', 'lp<lp_min', 'lp within 0.1% of lp_min'):
+    for region in ('l<=sigma/2', 'lp<lp_min', 'lp within 0.1% of lp_min', 'lp beyond 0.1% of lp_min (bending energy from the root solve)'):
         def build(f, region=region):
             sigma = f.real('sigma', pos=True)
             l = f.real('l', pos=True)
@@ -221,9 +268,11 @@ def _dk_init_cases():
                 lpmin = 4 * l * l * l / (4 * l * l - sigma * sigma)
                 if region == 'lp<lp_min':
                     f.assume(lp < lpmin)
-                else:
+                elif region.startswith('lp within'):
                     f.assume(lp >= lpmin)
                     f.assume((lp - lpmin) / lpmin < f.const(0.001))
+                else:
+                    f.assume((lp - lpmin) / lpmin >= f.const(0.001))
             return dict(self=f.obj(O + 'DiscreteKoyama:DiscreteKoyama'), sigma=sigma, l=l, length=f.int('N', lo=2), lp=lp)
         yield region, build
 
